@@ -114,7 +114,9 @@ func Base(d string) gm.Schema {
 		s.Enums = []gm.Enum{{Name: "mood", Values: []string{"happy", "sad"}}, {Name: "spare_kind", Values: []string{"x", "y"}}}
 		s.Tables[0].Cols = append(s.Tables[0].Cols, gm.Col{Name: "umood", Type: "enum:mood", Null: true})
 		s.Tables[0].Indexes = append(s.Tables[0].Indexes,
-			gm.Index{Name: "idx_users_score", Parts: []gm.Part{{Col: "score"}}, Where: `("score" > 0)`, Include: []string{"age"}, Type: "BTREE"})
+			gm.Index{Name: "idx_users_score", Parts: []gm.Part{{Col: "score"}}, Where: `("score" > 0)`, Include: []string{"age"}, Type: "BTREE"},
+			// an operator class written out although it is the default one for the column's type
+			gm.Index{Name: "idx_users_bio", Parts: []gm.Part{{Col: "bio", OpClass: "text_ops"}}})
 	case "sqlite":
 		s.Tables[0].Indexes = append(s.Tables[0].Indexes, gm.Index{Name: "idx_users_score", Parts: []gm.Part{{Col: "score"}}, Where: `"score" > 0`})
 		s.Tables[3].WithoutRowID = true
@@ -334,6 +336,14 @@ func AllSites(d string, s gm.Schema) []Site {
 			}
 		}
 		add(EditRef{Kind: "add-column", Table: T, Obj: "zz_col"}, T+".col:zz_col")
+		// PostgreSQL: a default operator class that is no longer written out (no change), alone and together with a
+		// change of the column's type (one ModifyColumn; the class was the default for the type it was written for)
+		for _, ix := range t.Indexes {
+			if d == "postgres" && len(ix.Parts) == 1 && ix.Parts[0].OpClass != "" {
+				add(EditRef{Kind: "drop-opclass", Table: T, Obj: ix.Name}, T+".idx:"+ix.Name)
+				add(EditRef{Kind: "retype-drop-opclass", Table: T, Obj: ix.Name, Arg: ty.big}, T+".idx:"+ix.Name, T+".col:"+ix.Parts[0].Col)
+			}
+		}
 		// a column dropped together with the single-column index on it (nothing else may use the column)
 		for _, ix := range t.Indexes {
 			if len(ix.Parts) != 1 || ix.Parts[0].Col == "" || ix.Where != "" || len(ix.Include) > 0 {
